@@ -40,6 +40,27 @@ func mapLoop(name string) []any {
 		"body": []any{nObj(eIdx(eVar("p"), eLit(vInt(0)))), nText("="), nObj(eIdx(eVar("p"), eLit(vInt(1)))), nText(";")}}}
 }
 
+// illFormedTemplates: sources that cannot parse (each kind of MC_C06 / MC_C07, at top level and inside blocks);
+// parsing them again, on any engine, from any goroutine, reports the same error.
+func illFormedTemplates() [][]any {
+	out := [][]any{}
+	for _, k := range []string{"badobj", "badtag", "unknowntag", "strayend", "strayclause", "badif", "openif", "openraw", "opencomment"} {
+		out = append(out, []any{nText("a"), nObj(eVar("n")), J{"t": k}, nText("z")})
+	}
+	inFor := func(n J) []any {
+		return []any{J{"t": "for", "tag": "for", "var": bs("x"), "coll": eVar("a"), "body": []any{nObj(eVar("x")), n}}, nText("z")}
+	}
+	inIf := func(n J) []any {
+		return []any{nText("a\n"), J{"t": "if", "branches": []any{J{"c": eVar("n"), "body": []any{nText("b\n"), n}}, J{"c": J{"t": "else"}, "body": []any{nText("c")}}}}}
+	}
+	for _, k := range []string{"strayclause", "strayend", "unknowntag", "badobj"} {
+		out = append(out, inFor(J{"t": k}), inIf(J{"t": k}))
+	}
+	out = append(out, []any{nText("a"), J{"t": "strayelse"}, nText("z")},
+		[]any{J{"t": "capture", "name": bs("cap"), "body": []any{nText("b"), J{"t": "strayelse"}}}})
+	return out
+}
+
 func genSession(r *rand.Rand, i int) J {
 	g := &pgen{r: r, budget: 0, rich: true, trims: r.Intn(2) == 0}
 	nenv := 2 + r.Intn(2)
@@ -54,7 +75,9 @@ func genSession(r *rand.Rand, i int) J {
 		if j%2 == 1 {
 			q[1+r.Intn(len(q)-1)] = vInt(0)
 		}
-		e = append(e, []any{bs("q"), vArr(q...)})
+		if len(e) > 0 { // (no bindings at all stays that way: the caller passes nil)
+			e = append(e, []any{bs("q"), vArr(q...)})
+		}
 		envs = append(envs, e)
 	}
 	templates := []any{}
@@ -66,6 +89,8 @@ func genSession(r *rand.Rand, i int) J {
 		g.budget = 10 + r.Intn(15)
 		templates = append(templates, g.seq(3, 5))
 	}
+	ill := illFormedTemplates()
+	templates = append(templates, ill[r.Intn(len(ill))])
 	nops := 2 + r.Intn(10)
 	if r.Intn(4) == 0 {
 		nops = 12 + r.Intn(28)
@@ -204,6 +229,9 @@ func genConSession(r *rand.Rand, i int) J {
 		templates = append(templates, t)
 	}
 	for _, t := range mutatorTemplates() {
+		templates = append(templates, t)
+	}
+	for _, t := range illFormedTemplates() {
 		templates = append(templates, t)
 	}
 	c["templates"] = templates
